@@ -306,6 +306,9 @@ def run(ctx):
                "an alphabet of n symbols has the codes 0..n-1: it fits an unsigned type of b bits exactly when n <= 2**b "
                "(257 symbols need uint16: the code 256 would wrap to 0 in uint8)", f.lineno)
 
+    from ..lints import alphabets_compared_by_value
+    for rel_ in (TYPES, SEQ, ALPH):
+        alphabets_compared_by_value(ctx, rel_, "R5.alphabet-compared-by-value")
     # positions and codes arrive as NumPy integers as often as Python ints
     from ..lints import integer_tests_accept_numpy
     integer_tests_accept_numpy(ctx, SEQ, "R6.integer-test-accepts-numpy", 1)
